@@ -84,10 +84,15 @@ def conc_val(v, H, shared=None):
     raise ValueError(v)
 
 
-def run_program(tagnames, events, H, realbase=False):
+def run_program(tagnames, events, H, realbase=False, shared_list=False):
     """realbase: the outermost hook is the interpreter's own sys.__displayhook__ (which prints the repr of what it is
     handed and binds builtins._) instead of a collecting function; what it received is read back from stdout."""
-    tags = {t: H.Tag("div", id=t) for t in tagnames}
+    if shared_list:
+        # every tag of the program was built from ONE (empty) TagList - e.g. a module-level fragment used as a template
+        template = H.TagList()
+        tags = {t: H.Tag("div", template, id=t) for t in tagnames}
+    else:
+        tags = {t: H.Tag("div", id=t) for t in tagnames}
     shared = H.HTMLDependency("shared", "1.0")
     base_log = []
 
@@ -354,12 +359,13 @@ class C17(Prop):
             ntags = rnd.choice([2, 4, 8, 12])
             names = [f"t{i + 1}" for i in range(ntags)]
             ev = well_formed_random(rnd, names, rnd.choice([6, 15, 60]), rnd.choice([2, 4, 8]))
-            gens.append({"kind": "prog", "tags": names, "events": ev, "realbase": rnd.random() < 0.25})
+            gens.append({"kind": "prog", "tags": names, "events": ev, "realbase": rnd.random() < 0.25,
+                         "shared_list": rnd.random() < 0.25})
         return gens
 
     def execute(self, g):
         import htmltools as H
-        rec = run_program(g["tags"], g["events"], H, realbase=g.get("realbase", False))
+        rec = run_program(g["tags"], g["events"], H, realbase=g.get("realbase", False), shared_list=g.get("shared_list", False))
         if len(rec["events"]) != len(g["events"]):
             # the interpreter could not align the run with the program text: not a verdict
             return {"tags": g["tags"], "events": rec["events"], "final": rec["final"], "gen": g, "misaligned": True}
